@@ -229,6 +229,20 @@ def _run(args, mod, prop, tier, seed, obs, known, workdir, t0):
         elif r["verdict"] == "CONFIRMED":
             confirmed.append((o, r))
 
+    # concrete fixture self-checks of the property module (reported with a replay description)
+    side_viol = 0
+    for i, f in enumerate((side or {}).get("fixture_self_check_failures", [])):
+        kid = f.get("known")
+        if kid and kid in known and known[kid].get("status", "open") == "open":
+            if kid not in {o.known for o, _ in known_hits}:
+                print(f"KNOWN-FINDING: property={prop} {kid}: {known[kid].get('what', '')} [fixture self-check {json.dumps(f)[:200]}]")
+            continue
+        os.makedirs(rdir, exist_ok=True)
+        path = os.path.join(rdir, f"selfcheck_{i}.json")
+        json.dump({"property": prop, "fixture_self_check": f}, open(path, "w"), indent=1)
+        print(f"VIOLATION property={prop} replay={path}")
+        print(f"  fixture self-check failed: {json.dumps(f)[:400]}")
+        side_viol += 1
     for o, r in inconclusive:
         print(f"INCONCLUSIVE property={prop} obligation={o.oid} {str(r.get('detail'))[:300]}")
     seen = set()
@@ -251,7 +265,7 @@ def _run(args, mod, prop, tier, seed, obs, known, workdir, t0):
                        replayed, wall, side)
     print(f"{prop} [{tier}] obligations={len(obs)} confirmed={len(confirmed)} known-findings={len(known_hits)} "
           f"inconclusive={len(inconclusive)} violations={len(violations)} wall={wall:.1f}s")
-    return 1 if violations else 0
+    return 1 if (violations or side_viol) else 0
 
 
 def write_evidence(mod, prop, tier, seed, obs, results, confirmed, inconclusive, known_hits, violations,
